@@ -27,8 +27,8 @@ ASSUMPTIONS = [
     "tolerances calibrated on the unchanged tree (worst iminuit shift 2.9e-3 sigma, cost 1.2e-5, sigma 2.4 %)",
     "scipy: sequences of length 1 in the quick tier, contours only in the thorough tier (4.9 s each)",
 ]
-QUERIES = ["cov", "cor", "asym", "profile0", "profile1", "profile_bounds", "profile_cl", "contour", "band", "report", "result_dict_asym", "plot", "to_file", "to_file_asym", "hessian"]
-REMINIMISING = {"asym", "profile0", "profile1", "profile_bounds", "profile_cl", "contour", "result_dict_asym", "to_file_asym"}
+QUERIES = ["cov", "cor", "asym", "profile0", "profile1", "profile_bounds", "profile_cl", "profile_refused_low", "profile_refused_high", "contour", "band", "report", "result_dict_asym", "plot", "to_file", "to_file_asym", "hessian"]
+REMINIMISING = {"asym", "profile0", "profile1", "profile_bounds", "profile_cl", "profile_refused_low", "profile_refused_high", "contour", "result_dict_asym", "to_file_asym"}
 PROBS_QUICK = ["lin-y", "exp-xy", "exp-fixed", "exp-lim", "exp-relm", "idx3-cov"]
 PROBS_ALL = list(problems.PROBLEMS)
 
@@ -59,6 +59,16 @@ def do_query(w, q, tmpdir):
             return np.asarray(ContoursProfiler(f, profile_points=7).get_profile(free[0], low=v0 - 1.5 * s0, high=v0 + 1.2 * s0))
         if q == "profile_cl":
             return np.asarray(ContoursProfiler(f, profile_points=7).get_profile(free[-1], cl=0.9))
+        if q in ("profile_refused_low", "profile_refused_high"):
+            # a bound on the wrong side of the optimum: the request is refused (ValueError) - and a refused query is still only a query
+            i = w.par_names.index(free[0])
+            v0, s0 = float(f.parameter_values[i]), float(f.parameter_errors[i])
+            kw = dict(low=v0 + 0.8 * s0) if q.endswith("low") else dict(high=v0 - 0.8 * s0)
+            try:
+                ContoursProfiler(f, profile_points=7).get_profile(free[0], **kw)
+            except ValueError:
+                return None
+            return None
         if q == "to_file_asym":
             f.to_file(os.path.join(tmpdir, "fit_asym.yml"), calculate_asymmetric_errors=True)
             return None
